@@ -23,7 +23,7 @@ ASSUMPTIONS = ['only the initial order of each work-item batch is permuted (that
                'error-kind differences involving CircularRefError on cycles through lookups are not judged (C18 covers '
                'same-row cycles, where they are judged)']
 BUDGET = {'quick': dict(examples=240, shards=16, max_seconds=55),
-          'thorough': dict(examples=8000, shards=16, max_seconds=900)}
+          'thorough': dict(examples=5000, shards=16, max_seconds=1800)}
 SHRINK_BUDGET = {'quick': 40, 'thorough': 300}
 
 
